@@ -473,8 +473,15 @@ func findPathScan(c *Ctx, p *GoProg) {
 			continue
 		}
 		errS := sp.Ret[1].String()
+		// `return dst, err` straight after `…, err = tmp.AdvanceIter(&dst.Iter)` is the pair `if err != nil { return dst,
+		// err }; return dst, nil` in one statement: its failing half returns exactly the AdvanceIter error, its other half
+		// is the success path and is checked as such
+		bothHalves := f.advIter != "" && !f.advIterErr && !f.advIterErrNil && reCallNum.ReplaceAllString(errS, "") == reCallNum.ReplaceAllString(f.advIter+".1", "")
+		if bothHalves {
+			f.advIterErrNil = true
+		}
 		switch {
-		case isNilAff(sp.Ret[1]):
+		case isNilAff(sp.Ret[1]) || bothHalves:
 			nFound++
 			var nameSt, typeSt string
 			for _, ef := range sp.Effects {
